@@ -97,7 +97,7 @@ func newGoBackNConn(ctx context.Context, cfg *config,
 		cfg:               cfg,
 		recvDataChan:      make(chan *PacketData, cfg.n),
 		sendDataChan:      make(chan *PacketData),
-		receivedACKSignal: make(chan struct{}),
+		receivedACKSignal: make(chan struct{}, 1),
 		resendSignal:      make(chan struct{}, 1),
 		remoteClosed:      make(chan struct{}),
 		ctx:               ctxc,
